@@ -44,6 +44,13 @@ def gen_message(rng, echo, faulty):
                                          b':NOPE 1,"a;b",#13x;y', b":SYSTE:A 'q' , \"r's\"", b':NOPE "\'"', b":NOPE '\"','\"'"]))
                 errs.append('-113')
                 break
+            if kind == 'noslot' and rng.random() < 0.3:
+                # a header that stops at a bare node (children only): undefined header at execution level, the path has moved —
+                # the relative units behind it run below that path
+                texts += [b':SENS:VOLT', b'VOLT:RANG 5', b'RANG?', b'DC:RANG 5']
+                errs.append('-113')
+                log += ['10(f64:0x4014000000000000)', '11()', '10(f64:0x4014000000000000)']
+                break
             if kind == 'noslot':
                 texts.append(rng.choice([b':X?', b':BAR?', b':SYST:A?', b':ECHO:U8 1', b'*RST?', b'*IDN', b':SYST']))
                 errs.append('-113')
